@@ -16,6 +16,7 @@ func init() {
 	vhRegister("VH_C08_Row", func(p []int) { VH_C08_Row(p[0]) })
 	vhRegister("VH_C13_Marks", func(p []int) { VH_C13_Marks(p[0]) })
 	vhRegister("VH_C08_Update", func(p []int) { VH_C08_Update(p[0]) })
+	vhRegister("VH_C08_Absent", func(p []int) { VH_C08_Absent() })
 }
 
 // vReuseConn hands out windows of ONE reusable receive buffer, as the driver does.
@@ -322,6 +323,59 @@ func VH_C08_Update(set int) {
 		}
 	}
 	vhCover("update")
+}
+
+// VH_C08_Absent: the entries that stand for ABSENT columns (partial images) are private too: two rows
+// of one event and a row of a later event for the same table, middle column absent; writing into the
+// absent-column entry of the first row (flag, data, name) changes no other row's entry.
+func VH_C08_Absent() {
+	shapes := []vCellShape{vCellShapes[0], vCellShapes[2], vCellShapes[0]} // TINY, VARCHAR, TINY
+	tc := vRowTable(shapes)
+	useIdentify := vhChoose(2) == 1
+	mk := func() *replication.Rows {
+		rs := &replication.Rows{DataColumns: replication.NewServerBitmap(3), IdentifyColumns: replication.NewServerBitmap(3)}
+		for _, c := range []int{0, 2} {
+			if useIdentify {
+				rs.IdentifyColumns.Set(c, true)
+			} else {
+				rs.DataColumns.Set(c, true)
+			}
+		}
+		for r := 0; r < 2; r++ {
+			row := replication.Row{NullColumns: replication.NewServerBitmap(2), NullIdentifyColumns: replication.NewServerBitmap(2)}
+			img := []byte{byte(7 + r), 9} // the values of the present columns are not the subject here
+			if useIdentify {
+				row.Identify = img
+			} else {
+				row.Data = img
+			}
+			rs.Rows = append(rs.Rows, row)
+		}
+		return rs
+	}
+	dec := func(rs *replication.Rows, i int) *RowData {
+		var rd *RowData
+		var err error
+		if useIdentify {
+			rd, err = getIdentifiesFromRow(tc, rs, i)
+		} else {
+			rd, err = getValuesFromRow(tc, rs, i)
+		}
+		vhAssert(err == nil && rd != nil && len(rd.Columns) == 3, "row decodes")
+		return rd
+	}
+	ev1, ev2 := mk(), mk()
+	a, b, c := dec(ev1, 0), dec(ev1, 1), dec(ev2, 0)
+	vhAssert(a.Columns[1] != b.Columns[1] && a.Columns[1] != c.Columns[1], "every row has its own entry for an absent column")
+	a.Columns[1].IsEmpty = false
+	a.Columns[1].Data = []byte("scribble")
+	a.Columns[1].Filed = "scribbled"
+	for _, o := range []*RowData{b, c} {
+		vhAssert(o.Columns[1].IsEmpty && o.Columns[1].Data == nil && o.Columns[1].Filed == "c1", "writing into one row's absent-column entry changes no other row")
+	}
+	d := dec(ev2, 1) // decoded after the scribble
+	vhAssert(d.Columns[1].IsEmpty && d.Columns[1].Data == nil && d.Columns[1].Filed == "c1", "a row decoded later is not affected either")
+	vhCover("absent")
 }
 
 // VH_C13_Marks: NULL, empty and absent are distinguishable in every column position.
